@@ -59,24 +59,30 @@ func (h *harness) apiFor(d DefaultCost) *apiWorld {
 	}
 	cfg.AddNamedType(t.o)
 	cfg.AddNamedType(bigType)
-	cfg.AddQueryField("things", apifu.Connection(&apifu.ConnectionConfig{
-		NamePrefix: "Thing",
-		ResolveAllEdges: func(ctx graphql.FieldContext) (interface{}, func(a, b interface{}) bool, error) {
-			edges := make([]int, w.total)
-			for i := range edges {
-				edges[i] = i
-			}
-			return edges, func(a, b interface{}) bool { return a.(int) < b.(int) }, nil
-		},
-		CursorType: reflect.TypeOf(int(0)),
-		EdgeCursor: func(edge interface{}) interface{} { return edge.(int) },
-		EdgeFields: map[string]*graphql.FieldDefinition{
-			"node": {Type: graphql.IntType, Cost: graphql.FieldResolverCost(1), Resolve: func(ctx graphql.FieldContext) (interface{}, error) {
-				w.resolved++
-				return ctx.Object, nil
-			}},
-		},
-	}))
+	for _, conn := range []struct {
+		name, prefix string
+		dir          apifu.ConnectionDirection
+	}{{"things", "Thing", apifu.ConnectionDirectionBidirectional}, {"thingsF", "ThingF", apifu.ConnectionDirectionForwardOnly}, {"thingsB", "ThingB", apifu.ConnectionDirectionBackwardOnly}} {
+		cfg.AddQueryField(conn.name, apifu.Connection(&apifu.ConnectionConfig{
+			NamePrefix: conn.prefix,
+			Direction:  conn.dir,
+			ResolveAllEdges: func(ctx graphql.FieldContext) (interface{}, func(a, b interface{}) bool, error) {
+				edges := make([]int, w.total)
+				for i := range edges {
+					edges[i] = i
+				}
+				return edges, func(a, b interface{}) bool { return a.(int) < b.(int) }, nil
+			},
+			CursorType: reflect.TypeOf(int(0)),
+			EdgeCursor: func(edge interface{}) interface{} { return edge.(int) },
+			EdgeFields: map[string]*graphql.FieldDefinition{
+				"node": {Type: graphql.IntType, Cost: graphql.FieldResolverCost(1), Resolve: func(ctx graphql.FieldContext) (interface{}, error) {
+					w.resolved++
+					return ctx.Object, nil
+				}},
+			},
+		}))
+	}
 	cfg.Execute = func(r *graphql.Request, info *apifu.RequestInfo) *graphql.Response {
 		w.mu.Lock()
 		w.called = true
@@ -260,6 +266,8 @@ func (h *harness) executeOne(c Case, verbose bool) *failure {
 			cv.Vars[k] = VarVal{"string", x}
 		case bool:
 			cv.Vars[k] = VarVal{"bool", strconv.FormatBool(x)}
+		case nil:
+			cv.Vars[k] = VarVal{"null", ""}
 		}
 	}
 	p, skip := h.prepareFor(cv, w.api.Schema())
@@ -351,7 +359,7 @@ func (h *harness) connOne(c Case, verbose bool) *failure {
 				Edges []struct {
 					Node *int `json:"node"`
 				} `json:"edges"`
-			} `json:"things"`
+			} `json:"t"`
 		} `json:"data"`
 		Errors []struct {
 			Message string `json:"message"`
@@ -367,7 +375,7 @@ func (h *harness) connOne(c Case, verbose bool) *failure {
 		h.run.Count("conn:rejected-before-execution")
 		return nil
 	}
-	// the cost of `{ things(first|last: K) { edges { node cursor } } }` is 1 + multiplier × 1
+	// the cost of `{ t: things(…) { edges { node cursor } } }` is 1 + multiplier × 1
 	charged := w.cost - 1
 	edges := 0
 	if resp.Data.Things != nil {
@@ -389,36 +397,95 @@ func (h *harness) connOne(c Case, verbose bool) *failure {
 	return nil
 }
 
+// argSpellings: how an Int argument of a connection can be written. Each returns the argument text
+// ("" = omitted), the variable definition it needs ("" = none) and the variable's value (nil = none given).
+var argSpellings = []string{"absent", "literal", "variable", "null-literal", "null-variable", "undefined-variable"}
+
+func spellArg(arg, spelling string, k int) (argText, varDef string, val *VarVal) {
+	switch spelling {
+	case "literal":
+		return fmt.Sprintf("%s: %d", arg, k), "", nil
+	case "variable":
+		return fmt.Sprintf("%s: $%s", arg, arg), "$" + arg + ": Int", &VarVal{"int", strconv.Itoa(k)}
+	case "null-literal":
+		return arg + ": null", "", nil
+	case "null-variable":
+		return fmt.Sprintf("%s: $%s", arg, arg), "$" + arg + ": Int", &VarVal{"null", ""}
+	case "undefined-variable":
+		return fmt.Sprintf("%s: $%s", arg, arg), "$" + arg + ": Int", nil
+	}
+	return "", "", nil
+}
+
+// connCase builds `query Q(…) { t: <field>(first…, last…) { edges { node cursor } } }`.
+func connCase(field string, total int, firstSp string, first int, lastSp string, last int) Case {
+	c := Case{Kind: "conn", Total: total, Default: DefaultCost{R: 1}, Max: -1, Vars: map[string]VarVal{}}
+	var args, defs []string
+	for _, a := range []struct {
+		name, sp string
+		k        int
+	}{{"first", firstSp, first}, {"last", lastSp, last}} {
+		if (field == "thingsF" && a.name == "last") || (field == "thingsB" && a.name == "first") {
+			continue
+		}
+		text, def, val := spellArg(a.name, a.sp, a.k)
+		if text != "" {
+			args = append(args, text)
+		}
+		if def != "" {
+			defs = append(defs, def)
+		}
+		if val != nil {
+			c.Vars[a.name] = *val
+		}
+	}
+	head := "query Q"
+	if len(defs) > 0 {
+		head += "(" + strings.Join(defs, ", ") + ")"
+	}
+	call := field
+	if len(args) > 0 {
+		call += "(" + strings.Join(args, ", ") + ")"
+	}
+	c.Query = head + " { t: " + call + " { edges { node cursor } } }"
+	c.Note = field + " first=" + firstSp + " last=" + lastSp
+	return c
+}
+
 func (h *harness) connections() {
 	r := h.run.Rand.Fork()
 	var cases []Case
-	for _, total := range []int{0, 1, 3, 7, 12} {
-		for k := 0; k <= 9; k++ {
-			for _, dir := range []string{"first", "last"} {
-				cases = append(cases, Case{Kind: "conn", Total: total, Query: fmt.Sprintf(`{ things(%s: %d) { edges { node cursor } } }`, dir, k), Default: DefaultCost{R: 1}, Max: -1})
+	// every spelling of first × every spelling of last (36), bidirectional; and the one argument of the
+	// forward-only / backward-only connections in every spelling
+	for _, fs := range argSpellings {
+		for _, ls := range argSpellings {
+			for _, total := range []int{0, 3, 25} {
+				cases = append(cases, connCase("things", total, fs, hx.Pick(r, []int{0, 1, 2, 5, 20}), ls, hx.Pick(r, []int{0, 1, 2, 7, 20})))
 			}
 		}
 	}
-	for i := 0; i < h.run.Scale(60, 1500); i++ {
-		total := r.Range(0, 30)
-		k := r.Range(0, 35)
-		dir := hx.Pick(r, []string{"first", "last"})
-		c := Case{Kind: "conn", Total: total, Default: DefaultCost{R: 1}, Max: -1}
-		switch r.Intn(3) {
-		case 0:
-			c.Query = fmt.Sprintf(`query Q($k: Int) { things(%s: $k) { edges { node cursor } } }`, dir)
-			c.Vars = map[string]VarVal{"k": {"int", strconv.Itoa(k)}}
-		case 1:
-			c.Query = fmt.Sprintf(`query Q($k: Int = %d) { things(%s: $k) { edges { node cursor } } }`, k, dir)
-		default:
-			c.Query = fmt.Sprintf(`{ things(%s: %d) { edges { node cursor } } }`, dir, k)
+	for _, sp := range argSpellings {
+		for _, total := range []int{0, 4, 25} {
+			cases = append(cases, connCase("thingsF", total, sp, hx.Pick(r, []int{0, 1, 3, 20}), "absent", 0))
+			cases = append(cases, connCase("thingsB", total, "absent", 0, sp, hx.Pick(r, []int{0, 1, 3, 20})))
 		}
-		cases = append(cases, c)
+	}
+	// page sizes 0..9 over small collections, forwards and backwards
+	for _, total := range []int{0, 1, 3, 7, 12} {
+		for k := 0; k <= 9; k++ {
+			cases = append(cases, connCase("things", total, "literal", k, "absent", 0))
+			cases = append(cases, connCase("things", total, "absent", 0, "literal", k))
+		}
+	}
+	for i := 0; i < h.run.Scale(80, 2000); i++ {
+		field := hx.Pick(r, []string{"things", "things", "thingsF", "thingsB"})
+		cases = append(cases, connCase(field, r.Range(0, 30), hx.Pick(r, argSpellings), r.Range(0, 35), hx.Pick(r, argSpellings), r.Range(0, 35)))
 	}
 	for _, c := range cases {
 		f := h.connOne(c, false)
+		h.run.Count("conn:" + c.Note)
 		h.run.Case("conn|"+c.Query+fmt.Sprint(c.Vars, c.Total), true)
-		h.run.Oblige("oracle: served default-cost connection resolves ≤ multiplier-charged edges", "oracle", 1, f == nil, fmtFail(f))
+		h.run.Oblige("oracle: served default-cost connection resolves ≤ multiplier-charged edges; RequestInfo.Cost = reference (all spellings of first/last)", "oracle", 1, f == nil, fmtFail(f))
 		if f != nil {
 			h.report(f, c)
 		}
